@@ -615,6 +615,21 @@ def d5(cx: Cx, ob: Ob) -> None:
         me = ("param", fn.self_name)
         for t, ctx in s.returns():
             ob.site(fn, f"return {show(t)[:70]}")
+            if op(t) == "call" and op(t[1]) == "func" and t[2][:1] == (("attr", me, "records"),) and t[1][1] in cx.model.functions:
+                # built by one of the table builders the constructor uses, as this call runs it
+                from ..rules import _for_this_call, dict_builder_entries
+
+                bfn = cx.model.functions[t[1][1]]
+                ents = _for_this_call(dict_builder_entries(cx, bfn, name, ob.id), bfn, t)
+                if ents and not any(e.key_unknown for e in ents):
+                    keys = set().union(*[set(e.key_fields) for e in ents])
+                    vals = {e.value_field for e in ents}
+                    ob.site(fn, f"{bfn.name}(self.records, ...): keys {sorted(keys)} -> {sorted(map(str, vals))}")
+                    if keys != {k} or vals != {v}:
+                        ob.violate(fn.qualname, fn.where, f"{name} is built by {bfn.name} with keys {sorted(keys)} and values {sorted(map(str, vals))}; expected exactly the canonical `{k}` -> `{v}` of every record", detail="view-keys:" + "+".join(sorted(keys)))
+                    elif any(e.conditions for e in ents):
+                        ob.violate(fn.qualname, fn.where, f"{name}: {bfn.name} enters the canonical pair only conditionally", detail="filter")
+                    continue
             if op(t) != "comp" or t[1] != "dict" or len(t[3]) != 1:
                 ob.undecide(f"{name} is not a single dict comprehension")
                 continue
